@@ -213,6 +213,7 @@ class Ctx:
         self.t0 = time.time()
         self.evaluations = 0
         self.nontrivial = set()
+        self.nontrivial_count = None  # for spaces too large to keep as a set
         self.outcomes = {}
         self.violations = {}  # key -> (what, case)
         self.samples = []
@@ -332,7 +333,9 @@ class Ctx:
         level = self.mod.LEVEL
         cov = {
             "evaluations": int(self.evaluations),
-            "distinct_nontrivial": len(self.nontrivial),
+            "distinct_nontrivial": (self.nontrivial_count
+                                    if self.nontrivial_count is not None
+                                    else len(self.nontrivial)),
             "rule": getattr(self.mod, "RULE", ""),
             "samples": self.samples or ["<none>"],
             "exhaustive": bool(self.exhaustive),
@@ -366,7 +369,8 @@ class Ctx:
         print(
             "%s %s: evaluations=%d nontrivial=%d outcomes=%d violations=%d "
             "known=%d wall=%.1fs"
-            % (self.pid, self.tier, self.evaluations, len(self.nontrivial),
+            % (self.pid, self.tier, self.evaluations,
+               cov["distinct_nontrivial"],
                len(self.outcomes), nvio, len(cov["known_findings_seen"]),
                ev["wall_s"])
         )
@@ -409,7 +413,7 @@ def run_replay(path):
         vio = mod.check_case(art["case"]).get("violations") or []
     for key, what in vio:
         print("# %s: %s" % (key, what))
-    if any(k == art["key"] for k, _ in vio):
+    if any(k in (art["key"], "*") for k, _ in vio):
         print("VIOLATION property=%s replay=%s" % (art["property"], path))
         return 1
     print("replay: violation %r not reproduced" % art["key"])
